@@ -190,6 +190,25 @@ Theorem C05_two_reads_refuted :
     (forall n, In n (all_nodes tw_g) -> In n (map fst p)).
 Proof. exact two_reads_refuted. Qed.
 
+(* the kind-L acceptor evaluated on every real two-read Plan: what acceptance means, and that the
+   model's two-read plan is accepted for every oracle *)
+Theorem C05_two_reads_accept_sound : forall dcf rackf (g : ring N) keyspaces en1 co1 en2 co2 pol rq p,
+  two_reads_matches dcf rackf g keyspaces en1 co1 en2 co2 pol rq p = true ->
+  exists h rest, p = h :: rest /\
+    pick_matches dcf rackf g keyspaces en1 co1 pol rq (Some h) = true /\
+    exists F, plan_matches dcf rackf g keyspaces en2 co2 pol rq F = true /\
+      (rest = F \/ (~ In h rest /\ exists a b, F = a ++ h :: b /\ rest = a ++ b)).
+Proof. exact two_reads_matches_sound. Qed.
+
+Theorem C05_two_reads_accepted : forall dcf rackf (g : ring N) keyspaces en1 co1 en2 co2 shf pol rq,
+  sorted_weak g ->
+  (forall k s, ks_lookup keyspaces k = Some s -> nts_keys_ok s) ->
+  forall cho shuf, (forall site l, Permutation (shuf site l) l) ->
+  (forall site len, (0 < len)%nat -> (cho site len < len)%nat) ->
+  forall pl, plan_two_reads dcf rackf g keyspaces en1 co1 en2 co2 shf pol rq cho shuf = Some pl ->
+  two_reads_matches dcf rackf g keyspaces en1 co1 en2 co2 pol rq (map fst pl) = true.
+Proof. exact two_reads_accepted. Qed.
+
 (* the witness is the two-read plan of a two-node ring whose node 1 loses its connections *)
 Example C05_ex_two_reads :
   tw_plan = plan_two_reads (fun _ => None) (fun _ => None) [(10, 1%N); (20, 2%N)] [(0%N, Simple 1)]
@@ -240,6 +259,17 @@ Example C05_ex_accept :
   plan_matches ex_dcf ex_rackf ex_g ex_ks ex_enabled ex_connected ex_pol (ex_rq true) [1; 7; 5; 4; 2; 3]%N = false.
 Proof. repeat split; vm_compute; reflexivity. Qed.
 
+Example C05_ex_two_reads_acceptor :
+  let tr := two_reads_matches (fun _ => None) (fun _ => None) tw_g tw_ks tw_up tw_up in
+  tr tw_up tw_co2 tw_pol tw_rq [1; 2; 1]%N = true /\      (* node 1 became a non-replica target: kept *)
+  tr tw_up tw_co2 tw_pol tw_rq [1; 2]%N = false /\         (* ... so it must reappear *)
+  tr tw_up tw_up tw_pol tw_rq [1; 2]%N = true /\           (* nothing changed: removed *)
+  tr tw_up tw_up tw_pol tw_rq [1; 1; 2]%N = false /\       (* nothing changed: must NOT reappear *)
+  tr tw_up tw_up tw_pol tw_rq [2; 1]%N = false /\          (* head is not an acceptable pick *)
+  tr (fun n => negb (N.eqb n 1)) tw_up tw_pol tw_rq [1; 2]%N = true /\   (* node 1 disabled afterwards *)
+  tr (fun n => negb (N.eqb n 1)) tw_up tw_pol tw_rq [1; 2; 1]%N = false.
+Proof. repeat split; vm_compute; reflexivity. Qed.
+
 Example C05_ex_permitted :
   map (permitted ex_dcf ex_g ex_pol (ex_rq false)) [1; 4; 9]%N = [true; true; false] /\
   map (permitted ex_dcf ex_g {| pol_pref := Some (PDc 1); pol_token_aware := true; pol_failover := false |} (ex_rq false)) [1; 4; 9]%N
@@ -282,3 +312,5 @@ Print Assumptions C05_lwt.
 Print Assumptions C05_plan_nodes.
 Print Assumptions C05_two_reads_safe.
 Print Assumptions C05_two_reads_refuted.
+Print Assumptions C05_two_reads_accept_sound.
+Print Assumptions C05_two_reads_accepted.
